@@ -299,6 +299,29 @@ func (f *Frame) lookupVar(name string, st *state, li *loopInfo, edgeFrom *ssa.Ba
 			}
 		}
 	}
+	if li == nil && f.atBlock != nil {
+		// inside a loop body (call-site assertions): the loop-carried variables of the enclosing loops, innermost first,
+		// with their values at the loop head of the current iteration
+		var best *loopInfo
+		for _, l := range f.loops {
+			if l.body[f.atBlock] && (best == nil || len(l.body) < len(best.body)) {
+				for _, ins := range l.header.Instrs {
+					if phi, ok := ins.(*ssa.Phi); ok && phi.Comment == name {
+						best = l
+					}
+				}
+			}
+		}
+		if best != nil {
+			for _, ins := range best.header.Instrs {
+				if phi, ok := ins.(*ssa.Phi); ok && phi.Comment == name {
+					if v, ok := f.vals[phi]; ok {
+						return v, true
+					}
+				}
+			}
+		}
+	}
 	// enclosing loops' header phis (variable modified only in an outer loop)
 	var at *ssa.BasicBlock
 	atIdx := -1 // -1: entry of block "at" (loop header); >= 0: before instruction atIdx of block "at"
